@@ -43,12 +43,19 @@ def norm(node):
 
 
 class Module(object):
-    def __init__(self, name, path, relpath, src):
+    def __init__(self, name, path, relpath, src, translate=False):
         self.name = name
         self.path = path
         self.relpath = relpath
         self.src = src
         self.tree = ast.parse(src, filename=path)
+        if translate and not os.environ.get("VERIF_NO_REFNAMES"):
+            # module-level closures built by a factory are put back as plain functions before anything is indexed
+            from . import refnames as _rn
+            try:
+                self.specialised = _rn.specialise_factories(self.tree)
+            except RecursionError:
+                self.specialised = 0
         self.digest = hashlib.sha256(src.encode("utf-8")).hexdigest()[:16]
         self.imports = {}      # local name -> ("module", modname) | ("symbol", modname, symbol)
         self.assigns = {}      # module-level name -> list of value nodes (in order)
@@ -157,7 +164,7 @@ class Repo(object):
                     with open(path, encoding="utf-8") as f:
                         src = f.read()
                     try:
-                        mod = Module(short, path, rel, src)
+                        mod = Module(short, path, rel, src, translate=translate)
                     except SyntaxError as e:
                         raise AnalysisError("cannot parse %s: %s" % (rel, e))
                     self.modules[short] = mod
